@@ -15,7 +15,7 @@ PID = "C11"
 
 
 def intervals_part(tier, rep, cov):
-    n, cap, depth = (6, 3, 3) if tier == "quick" else (7, 4, 4)
+    n, cap, depth = (6, 3, 3) if tier == "quick" else (6, 4, 3)   # (7, 4, 4) does not finish in an hour on 12 workers
     consts = {"N": n, "Cap": cap, "Depth": depth}
     r = C.tlc("MC_Intervals", "MC_Intervals.cfg", "c11_iv", workers=8 if tier == "quick" else 12,
               constants=consts, extra=["-coverage", "1"], timeout=3000)
